@@ -12,7 +12,7 @@ KINDS = {
     'C09': {'c09-redelivery', 'c09-skip'},
 }
 SKELS = {
-    'C07': (['a,a', 'a,A2', 'A2,a', 'a,n,a'], ['a,a,a', 'A3', 'a,A2,a', 'a:u,a,a:u', 'A2,n,A2']),
+    'C07': (['a,X|a,X', 'a,a:u|a:u,X', 'a,a', 'a,A2', 'A2,a', 'a,n,a'], ['a,a,a', 'A3', 'a,A2,a', 'a:u,a,a:u', 'A2,n,A2', 'a,X,a|a,X', 'A2,X|a,a,X']),
     'C08': (['A2', 'a,A2', 'A3'], ['A4', 'a,A3,a', 'A2,A2']),
     'C09': (['a,n', 'a,a,n,n', 'a,a,b', 'a,n,a,n'], ['a,a,a,n,b', 'A3,n,n', 'a,a,n,a,b,n']),
 }
@@ -29,13 +29,18 @@ def build_script(r, backend, consistency, pe):
         if isinstance(o.get('budget'), str):
             o['budget'] = wit[o['budget']]
         ops.append(o)
-    cop, cev, ckind = r['crash']
-    idx = 0 if cop == 'open' else cop + 1
+    idx, cev, ckind = r['crash']
     ops = ops[:idx + 1]
     ops[idx]['abort_at_event'] = cev + 1
     ops[idx]['expected_event_kind'] = ckind
     ops.append(dict(op='restart_process'))
     ops.append(dict(op='open'))
+    for o in r.get('post') or []:
+        o = json.loads(json.dumps(o))
+        for e in o.get('entries', []):
+            if isinstance(e['len'], str):
+                e['len'] = wit[e['len']]
+        ops.append(o)
     topics = sorted({o['topic'] for o in ops if o.get('topic')})
     for t in topics:
         n = sum(len(o.get('entries', [])) for o in ops if o.get('topic') == t)
@@ -180,8 +185,11 @@ def run(prop, tier, seed):
             rep.inconclusive.append('vacuity: should_persist explored %d path classes (expected >= 4)' % len(agg['results']))
     jobs = []
     for s in skels:
-        jobs.append(dict(skel=s, backend='fd', consistency='StrictlyAtOnce'))
-        jobs.append(dict(skel=s, backend='mmap', consistency='StrictlyAtOnce'))
+        # 'pre|post': operations after the bar run after the crash recovery (more appends, clean restarts), then the drain
+        pre, _, post = s.partition('|')
+        for b in ('fd', 'mmap'):
+            # histories with a post-crash suffix use small entries (no rotation): they are about which files recovery scans
+            jobs.append(dict(skel=pre, backend=b, consistency='StrictlyAtOnce', **({'post': post, 'sizecap': 4096} if post else {})))
     if prop == 'C09':
         jobs += [dict(skel=s, backend='fd', consistency='AtLeastOnce', persist_every=2) for s in skels[:2]]
     agg = runner.explore_jobs('rsym.drivers.crash', 'mk', docs, jobs, dict(seed=seed, eager_div=6), min(12, runner.ncpu()), 240 if tier == 'quick' else 2400)
@@ -195,7 +203,7 @@ def run(prop, tier, seed):
     findings = [f for f in runner.load_findings(prop) if f.get('status') == 'known']
     groups = {}
     for r in cex:
-        key = (r['kind'], r['job']['skel'], r['job']['backend'], tuple(r['crash']))
+        key = (r['kind'], r['job']['skel'], r['job'].get('post'), r['job']['backend'], tuple(r['crash']))
         tot = sum(v for k, v in r['witness'].items() if k.startswith('size'))
         if key not in groups or tot < groups[key][0]:
             groups[key] = (tot, r)
